@@ -653,8 +653,15 @@ class Prefix(metaclass=_Interned):
             return IdentityPrefix
 
         key = (base, exponent)
-        if key in cls._known:
-            return cls._known[key]
+        existing = cls._known.get(key)
+
+        if name and cls._by_name.get(name, existing) is not existing:
+            raise ValueError(f"A prefix named {name} is already defined")
+        if symbol and cls._by_symbol.get(symbol, existing) is not existing:
+            raise ValueError(f"A prefix with symbol {symbol} is already defined")
+
+        if existing is not None:
+            return existing
 
         self = super().__new__(cls)
         self._initialized = False
@@ -668,18 +675,20 @@ class Prefix(metaclass=_Interned):
         name: Optional[str] = None,
         symbol: Optional[str] = None,
     ) -> None:
-        if self._initialized:
-            return
+        if not self._initialized:
+            self.base = base
+            self.exponent = exponent
+            self.name = None
+            self.symbol = None
+            self._initialized = True
 
-        self.base = base
-        self.exponent = exponent
-        self.name = name
-        self.symbol = symbol
-        self._initialized = True
-
-        if name:
+        # A prefix may first come about anonymously (as the result of arithmetic) and
+        # only be given its name and symbol later
+        if name and not self.name:
+            self.name = name
             self._by_name[name] = self
-        if symbol:
+        if symbol and not self.symbol:
+            self.symbol = symbol
             self._by_symbol[symbol] = self
 
     @classmethod
